@@ -203,7 +203,17 @@ def lean_source_scan():
 
 
 def audit(module, theorems):
-    """#print axioms on each theorem. Returns dict name -> (ok, axioms or error text)."""
+    """#print axioms on each theorem. Returns dict name -> (ok, axioms or error text).
+    A theorem that is not reported is looked at a second time after rebuilding its module: another `lake build`
+    running in the same package can remove an .olean for a moment, and that must not pass for a broken proof."""
+    res = _audit(module, theorems)
+    if any(v[1] == "not reported" or str(v[1]).startswith("lean error") for v in res.values()):
+        lean_build([module])
+        res = _audit(module, theorems)
+    return res
+
+
+def _audit(module, theorems):
     res = {}
     if not theorems:
         return res
@@ -212,7 +222,8 @@ def audit(module, theorems):
         fh.write(src)
         tmp = fh.name
     try:
-        rc, log = sh(["lake", "env", "lean", tmp], cwd=LEAN, timeout=1800)
+        with Lock("lake"):
+            rc, log = sh(["lake", "env", "lean", tmp], cwd=LEAN, timeout=1800)
     finally:
         os.unlink(tmp)
     # parse: "'Name' depends on axioms: [a, b]" or "'Name' does not depend on any axioms"
@@ -267,6 +278,8 @@ def run_pair(lines, timeout=600):
 
 
 def run_model(lines, timeout=600):
+    if not os.path.exists(model_exe()):
+        lean_build(["gocc_model"])          # e.g. another build in the same package was relinking it
     rc, o, e = run_lines(model_exe(), lines, timeout)
     if len(o) != len(lines):
         raise BuildError("model produced %d lines for %d ops (rc=%d): %s" % (len(o), len(lines), rc, e[-500:]))
